@@ -240,6 +240,7 @@ EvB(tr, st) ==
     [] tr[1] = "call" ->
          LET a == EvBArgs(tr[3], st)  f == tr[2] IN
          IF f = "TRUE" THEN Bool(TRUE) ELSE IF f = "FALSE" THEN Bool(FALSE)
+         ELSE IF f = "ERR" THEN (IF HasKey(st.env, "ERR") THEN st.env["ERR"] ELSE Sym)     \* the code of the pending error
          ELSE IF f \in B09Fun0 THEN Sym
          ELSE IF FirstBad(a) # 0 THEN a[FirstBad(a)]
          ELSE IF \E k \in 1..Len(a) : IsBool(a[k]) THEN Err("type")
